@@ -46,6 +46,8 @@ def cases(tier, seed):
     top = 160 if tier == 'quick' else 1024
     for lo in range(0, top, 16):
         yield dict(kind='blocks', lo=lo, hi=min(lo + 16, top))
+    # a table longer than 2^16 (index widths) - compiled only
+    yield dict(kind='compiled', H=70001, P=70001, rsd=True, lc=False, big=True)
 
 
 def tracers(sub):
@@ -138,10 +140,10 @@ def run_compiled(case):
     H, P, rsd = case['H'], case['P'], case['rsd']
     probs, nt = [], []
     n = 0
-    for sub in SUBSETS:
+    for sub in (SUBSETS if not case.get('big') else [(0, 1, 2)]):
         tr = tracers(sub)
         ref = None
-        for nthread in range(1, 17):
+        for nthread in (range(1, 17) if not case.get('big') else (1, 2, 7, 16)):
             hd, pd = table(H, P)
             try:
                 out = gen_gal_cat(hd, pd, tr, params_for(case), Nthread=nthread, enable_ranks=True, rsd=rsd, nfw=False, write_to_disk=False, verbose=False)
